@@ -246,3 +246,142 @@ func verifHarness_C12_roundtrip_compression_stub_codec() {
 	}
 	verifAssert(false, "witness")
 }
+
+// ---- the default codec's tail handling: compressWriter forwards flate's
+// output through truncWriter, which must withhold exactly the last four bytes
+// (the 00 00 ff ff sync marker) whatever the sizes of flate's writes.
+
+type verifSink struct{ got []byte }
+
+func (s *verifSink) Write(p []byte) (int, error) { s.got = append(s.got, p...); return len(p), nil }
+func (s *verifSink) Close() error                { return nil }
+
+func verifHarness_C12_truncwriter_any_segmentation() {
+	verifBound("stream_len_max", 11)
+	verifBound("writes", 4)
+	total := verifConc(verifInt("len", 0, 11))
+	in := verifBytes("b", total)
+	sink := &verifSink{}
+	tw := &truncWriter{w: sink}
+	rest := in
+	for k := 0; k < 3 && len(rest) > 0; k++ {
+		n := verifConc(verifInt("seg", 0, len(rest)))
+		_, err := tw.Write(append([]byte(nil), rest[:n]...))
+		verifAssertD(err == nil, "truncwriter-write-succeeds", "")
+		rest = rest[n:]
+	}
+	if len(rest) > 0 {
+		_, err := tw.Write(append([]byte(nil), rest...))
+		verifAssertD(err == nil, "truncwriter-write-succeeds", "")
+	}
+	keep := total - 4
+	if keep < 0 {
+		keep = 0
+	}
+	verifAssertD(len(sink.got) == keep && verifEqBytes(sink.got, in[:keep]), "all-but-the-last-four-bytes-forwarded", "")
+	held := total - keep
+	verifAssertD(tw.n == held && verifEqBytes(tw.p[:held], in[keep:]), "last-four-bytes-withheld", "")
+	verifAssert(false, "witness")
+}
+
+// ---- the real codec (compress/flate) end to end, payloads concrete, every
+// mask key, role, frame limit and cut decided by the solver.
+
+func verifC12FlatePayload(k int) []byte {
+	switch k {
+	case 0:
+		return []byte{}
+	case 1:
+		return []byte("a")
+	case 2:
+		return []byte("hello hello hello hello hello")
+	case 3:
+		b := make([]byte, 70)
+		for i := range b {
+			b[i] = byte(i*37 + 11)
+		}
+		return b
+	}
+	b := make([]byte, 300)
+	for i := range b {
+		b[i] = "abcabcabd"[i%9]
+	}
+	return b
+}
+
+func verifC12Flate(payloads []int, levels []int, limits []int) {
+	clientSends := verifChoose("sender_is_client", 2) == 1
+	pk := payloads[verifChoose("payload", len(payloads))]
+	level := levels[verifChoose("level", len(levels))]
+	limit := limits[verifChoose("frame_limit", len(limits))]
+	snd := verifNewEndpoint(clientSends, true, 0, nil)
+	rcv := verifNewEndpoint(!clientSends, true, 0, nil)
+	snd.eng.MaxWebsocketFramePayloadSize = limit
+	snd.c.enableWriteCompression = true
+	snd.c.compressionLevel = level
+	var payload []byte
+	if pk >= 100 {
+		// stored blocks (level 0) move the bytes without looking at them: any content
+		payload = verifBytes("p", pk-100)
+		for _, b := range payload {
+			verifAssume(b < 0x80)
+		}
+	} else {
+		payload = verifC12FlatePayload(pk)
+	}
+	orig := append([]byte(nil), payload...)
+	mt := TextMessage
+	if pk == 3 {
+		mt = BinaryMessage // arbitrary bytes are not UTF-8
+	}
+	err := snd.c.WriteMessage(mt, payload)
+	verifAssertD(err == nil, "write-succeeds", "flate")
+	wire := snd.fake.wire()
+	pos, first := 0, true
+	for pos < len(wire) {
+		f := verifDecodeFrame(wire[pos:])
+		verifAssertD(f.ok, "sender-frame-decodes", "flate")
+		if !f.ok {
+			break
+		}
+		verifAssertD(f.rsv1 == first, "rsv1-on-first-frame-only", "flate")
+		verifAssertD(len(f.payload) <= limit, "frame-within-payload-limit", "flate")
+		first = false
+		pos += f.total
+	}
+	maxCut := len(wire)
+	if maxCut > 150 {
+		maxCut = 150 // longer streams: the cut falls in the first 150 bytes
+	}
+	cut := verifConc(verifInt("cut", 1, maxCut))
+	perr := rcv.c.Parse(append([]byte(nil), wire[:cut]...))
+	if perr == nil && cut < len(wire) {
+		perr = rcv.c.Parse(append([]byte(nil), wire[cut:]...))
+	}
+	verifAssertD(perr == nil, "receiver-accepts", "flate")
+	verifAssertD(len(rcv.msgs) == 1, "delivered-exactly-once", "flate")
+	if len(rcv.msgs) == 1 {
+		verifReach("delivered-flate")
+		verifAssertD(rcv.msgs[0].typ == mt, "same-type", "flate")
+		verifAssertD(len(rcv.msgs[0].data) == len(orig) && verifEqBytes(rcv.msgs[0].data, orig), "same-payload", "flate")
+	}
+	verifAssertD(!rcv.fake.closed && len(rcv.fake.writes) == 0, "receiver-stays-open-and-silent", "flate")
+}
+
+func verifHarness_C12_roundtrip_flate() {
+	verifBound("payloads", 4)
+	verifC12Flate([]int{0, 1, 2, 3}, []int{1, -2}, []int{1 << 15, 3})
+	verifAssert(false, "witness")
+}
+
+func verifHarness_C12_roundtrip_flate_stored_any_content() {
+	verifBound("payload_len_max", 6)
+	verifC12Flate([]int{100, 101, 102, 106}, []int{0}, []int{1 << 15, 4})
+	verifAssert(false, "witness")
+}
+
+func verifHarness_C12_roundtrip_flate_levels_T() {
+	verifBound("payloads", 5)
+	verifC12Flate([]int{0, 1, 2, 3, 4}, []int{-2, 0, 1, 6, 9}, []int{1 << 15, 7})
+	verifAssert(false, "witness")
+}
